@@ -192,7 +192,12 @@ func (e *env) ServeHTTP(w http.ResponseWriter, r *http.Request) {
 	}
 	// the request body travels too
 	body, err := io.ReadAll(r.Body)
-	if err != nil {
+	if err != nil && e.c.Kind == "nbclient" && e.c.NbTarget == "std" {
+		// the server is net/http here and streams the body: the nbhttp client
+		// closing mid-request ends the read; nothing of nbio's server side is involved
+		e.r.Count("request_body_reads_ended_by_a_client_close(net/http server)", 1)
+		return
+	} else if err != nil {
 		e.violate("c10:"+e.cls+":request-body-read-error", fmt.Sprintf("connection %s id %#x: reading the request body failed: %v", key, id, err))
 	} else if is := e2e.CheckBody(body, reqBodyID(id), blen); is != nil {
 		sym := is.Symptom
